@@ -169,6 +169,10 @@ class Executor:
         for x, y in ((a, b), (b, a)):
             if isinstance(x.ty, OptT) and (x.ty.inner == y.ty):
                 return self.coerce(a, x.ty), self.coerce(b, x.ty), x.ty
+        for x, y in ((a, b), (b, a)):
+            if x.ty is TUPLE and len(x.py) == 0 and isinstance(y.ty, SeqT):
+                e = V(fn("seq.empty", Ref)() if False else z3.Const("seq.empty", Ref), y.ty)
+                return (e, y, y.ty) if x is a else (y, e, y.ty)
         if is_ref(a.ty) and is_ref(b.ty):
             return a, b, a.ty
         if {a.ty, b.ty} == {INT, REAL}:
